@@ -93,7 +93,8 @@ func histFamiliesW(c *CheckRun, wantFan bool, light bool) []histB {
 		out = append(out, fNum(k, 4)...)
 	}
 	if !light {
-		for _, k := range []int{kindI64, kindF32, kindF64} {
+		// (float64 stops at three keys: four symbolic 64-bit floats cost > 6 solver-hours per check)
+		for _, k := range []int{kindI64, kindF32} {
 			out = append(out, fNum(k, 4)...)
 		}
 	}
@@ -167,7 +168,7 @@ var commonBounds = []string{
 	"operation kinds and key lengths of a scenario are concrete; all key bytes / numeric key values / stored values / probe and bound arguments / counts are symbolic",
 	"F-short: every Insert/Delete sequence of n ops over byte-string keys of length 0..L (first op an Insert); quick n<=3,L=2; thorough n<=3,L=3 and n=4,L=2",
 	"F-long: two keys stem(p)+1 byte, one more symbolic op and probe over {same stem +0/1/2 bytes, stem with one symbolic byte at position 0, p/2, p-1, stem shortened by 1 or 2}; p in {maxPrefixLen, +1} quick; {-1,0,+1,+2, 2*maxPrefixLen} thorough",
-	"F-num: every Insert/Delete pattern of 3 (quick: uint8,int64,float32; thorough: all 12 types, and 4 ops for six of them) symbolic values",
+	"F-num: every Insert/Delete pattern of 2 symbolic values for all 12 numeric types and of 3 for uint8 (quick); thorough: 3 for all 12 types and 4 for uint8, int8, uint16, int64, float32",
 	"F-fan (where used): one node with m concrete 1-byte siblings for m at every grow/shrink threshold (4,16,48 / 3,12,37 as read from the working tree's constants), then 1 (quick) or 2 (thorough) symbolic Insert/Delete and a symbolic probe; sibling bytes = {00,01,7f,80,fe,ff} plus seed-chosen fill",
 	"F-fan additions: a node16 that was full and is shrunk to 2/6 children by deleting its largest bytes (stale lanes hold the removed maximum); all 256 byte values under one node (update-free base); F-fan-stem bases whose 5/17/49 siblings and the stem key are all deleted again; F-fan-kind (uint8, int8, uint16, float32; thorough int64; collation and compound with concrete encodings) incl. a node48 whose first-inserted children are deleted and, for uint16/int64/float32/collation/compound, the same fans below the root",
 	"length-field boundaries (C01, C06, C15): two byte-string keys of 255 and 65535 bytes (thorough 254..257, 65534..65537), concrete stem, symbolic last byte: insert, overwrite, second insert, All, Minimum, failed and real Delete",
@@ -335,6 +336,16 @@ func rangeScenarios(c *CheckRun) []*Scenario {
 			s.MayBeVacuous = true // "empty end with a start above the maximum" is carved out by assumption
 		}
 	}
+	// a wide node whose children are inner nodes with a compressed path of their own: m siblings c, each with the
+	// two keys c,'b',1 and c,'b',2 (one sibling is 'a'); bounds "ab"+symbolic byte share a prefix that reaches
+	// below the wide node, so the prune test runs at the children's depth
+	for _, m := range []int{17, 5, 49} {
+		if m != 17 && c.Tier == "quick" {
+			continue
+		}
+		out = append(out, histB{kind: kindAlphaB, mask: ckRange, ops: fanOfInner(c, m), extra: []int{aSpec(2, 1), aSpec(2, 1)}, big: true,
+			label: fmt.Sprintf("fan of %d inner nodes with compressed paths", m)}.scn())
+	}
 	// empty trees, every kind
 	kinds := append([]int{kindAlphaB, kindAlphaS}, numericQuick...)
 	if c.Tier != "quick" {
@@ -383,6 +394,21 @@ func alphaOnly(bs []histB) []histB {
 	return out
 }
 
+// fanOfInner: m siblings c (one of them 'a'), each holding the two keys c,'b',1 and c,'b',2.
+func fanOfInner(c *CheckRun, m int) [][2]int {
+	var ops [][2]int
+	sib := []int{'a'}
+	for _, b := range fanBytes(m, c.Seed, 1) {
+		if b != 'a' && len(sib) < m {
+			sib = append(sib, b)
+		}
+	}
+	for _, b := range sib {
+		ops = append(ops, [2]int{opInsertC, 3<<24 | b<<16 | 'b'<<8 | 1}, [2]int{opInsertC, 3<<24 | b<<16 | 'b'<<8 | 2})
+	}
+	return ops
+}
+
 func prefixScenarios(c *CheckRun) []*Scenario {
 	base := alphaOnly(cheapBig(histFamiliesW(c, true, true)))
 	out := withMask(base, ckPrefix, func(b *histB) []int { return []int{probeSpec(b)} })
@@ -405,6 +431,16 @@ func prefixScenarios(c *CheckRun) []*Scenario {
 			if c.Tier == "quick" {
 				break
 			}
+		}
+	}
+	// a wide node of inner nodes (see C03): prefixes that end at the wide node, inside a child's path, at a leaf
+	for _, m := range []int{17, 49} {
+		if m != 17 && c.Tier == "quick" {
+			continue
+		}
+		for _, ps := range []int{aSpec(0, 1), aSpec(1, 1), aSpec(2, 1), aSpec(2, 0)} {
+			out = append(out, histB{kind: kindAlphaB, mask: ckPrefix, ops: fanOfInner(c, m), extra: []int{ps}, big: true,
+				label: fmt.Sprintf("fan of %d inner nodes with compressed paths", m)}.scn())
 		}
 	}
 	// single key / empty tree, prefixes of every length
